@@ -23,7 +23,7 @@ texts = {
 "C18": "CBMC's built-in memory checks over the unsafe transport code in the harnesses of C01/C04/C05/C12/C15 (incl. short follow-ups: every byte of the result was written) + zero-length regions + CMSG arithmetic SMT queries.",
 }
 reasons = {
-"C06": "receiver set = mio + hashbrown + epoll: needs per-loop unwinding of 17 (SIMD group probing) and the design-phase probe already ran out of memory at 30 GB for one member and one message; with the limitation found later (values read back from heap-allocated enums are symbolic for CBMC) no tuned version was decidable inside the budget - not replaced by a sampled test",
+"C06": "receiver set = mio + hashbrown + epoll: a harness was built (kani/src/h_set.rs, passes natively on the real kernel) but under Kani symbolic execution does not get past hashbrown's SIMD-emulated group-probing loop in 40 min (design-phase probe: out of memory at 30 GB); also std's OwnedFd debug check calls variadic fcntl with 2 arguments, which ICEs kani-compiler against the model's fcntl. Not replaced by a sampled test",
 "C07": "router: reachable only through RouterProxy::new, which spawns a thread and uses crossbeam-channel; Kani does not model threads and kani-compiler 0.68 ICEs on crossbeam's thread_local with destructor",
 "C08": "one-shot server: straight-line socket/bind/listen/accept/connect + tempfile; everything the property states is behaviour of the kernel's listen queue, SO_LINGER, tempfile's RNG and std::fs - model, not code",
 "C17": "router shutdown: threads and schedules only (see C07)",
